@@ -116,6 +116,20 @@ def compare_cases(outs, atoms, spec_fn, feasible=None):
             continue
         n_rows += 1
         got = T.select(outs, asg)
+        # equalities with constants that hold in this row may be used on both sides
+        # (e.g. a fast path guarded by `multiple == 1` that omits the division by it)
+        eqs = {}
+        for at, val in asg.items():
+            if val and at[0] == "==":
+                x, y = at[1], at[2]
+                if y[0] == "num" and x[0] != "num":
+                    eqs[x] = y
+                elif x[0] == "num" and y[0] != "num":
+                    eqs[y] = x
+        if eqs:
+            got = [(k, _simp_units(_subst(t, eqs))) for (k, t) in got]
+            if want[1] is not None:
+                want = (want[0], _simp_units(_subst(want[1], eqs)))
         desc = ", ".join(("" if v else "¬") + T.show(a) for a, v in asg.items())
         if len(got) != 1:
             yield (asg, "case [%s]: %d outcomes instead of one" % (desc, len(got)))
@@ -149,3 +163,47 @@ def strip_R(t):
     if t[0] in ("p", "num", "str", "bool", "variant", "unit", "none", "const", "panic", "closure"):
         return t
     return (t[0],) + tuple(strip_R(x) if isinstance(x, tuple) else x for x in t[1:])
+
+
+def _subst(t, mapping):
+    if not isinstance(t, tuple):
+        return t
+    if t and t[0] == "R":
+        return ("R", _subst(t[1], mapping))
+    ct = T.canon(t)
+    if ct in mapping:
+        return mapping[ct]
+    h = t[0]
+    if h == "app":
+        return ("app", t[1], t[2], tuple(_subst(x, mapping) for x in t[3]))
+    if h in ("p", "num", "str", "bool", "unit", "variant", "none", "const", "panic", "closure", "bytes", "opaque_lit", "fnref"):
+        return t
+    if h == "adt":
+        return ("adt", t[1], t[2], tuple((n, _subst(x, mapping)) for n, x in t[3]))
+    if h in ("tuple", "array"):
+        return (h, tuple(_subst(x, mapping) for x in t[1]))
+    return (h,) + tuple(_subst(x, mapping) if isinstance(x, tuple) else x for x in t[1:])
+
+
+def _simp_units(t):
+    """x*1 -> x, 1*x -> x, x/1 -> x (exact in IEEE-754 and fpdec)."""
+    if not isinstance(t, tuple):
+        return t
+    if t and t[0] == "R":
+        return ("R", _simp_units(t[1]))
+    h = t[0]
+    if h == "app":
+        return ("app", t[1], t[2], tuple(_simp_units(x) for x in t[3]))
+    if h in ("p", "num", "str", "bool", "unit", "variant", "none", "const", "panic", "closure", "bytes", "opaque_lit", "fnref"):
+        return t
+    if h == "adt":
+        return ("adt", t[1], t[2], tuple((n, _simp_units(x)) for n, x in t[3]))
+    if h in ("tuple", "array"):
+        return (h, tuple(_simp_units(x) for x in t[1]))
+    args = [_simp_units(x) if isinstance(x, tuple) else x for x in t[1:]]
+    one = lambda x: isinstance(x, tuple) and x[0] == "num" and x[1] == 1
+    if h == "*" and one(args[0]):
+        return args[1]
+    if h in ("*", "/") and one(args[1]):
+        return args[0]
+    return (h,) + tuple(args)
